@@ -1,7 +1,7 @@
 #!/usr/bin/env python3
 # Runs tools/seedmatrix.sh and records, per kept seed, which rules of its property's check fire on it.
 import json, subprocess, re, os, collections
-out = subprocess.run(['/verif/tools/seedmatrix.sh'], capture_output=True, text=True).stdout
+out = open(os.environ['SEED_MATRIX_FILE']).read() if os.environ.get('SEED_MATRIX_FILE') else subprocess.run(['/verif/tools/seedmatrix.sh'], capture_output=True, text=True).stdout
 res = {}
 cur = None
 for line in out.splitlines():
@@ -61,6 +61,17 @@ why_missed = {
  'C15-Ar2': 'emitted-Lua naming: dissectors de-duplicated by function name conflate distinct inline objects of the same name; needs the set of inline-object names, a model-level fact',
  'C17-B': 'emitted-Java import list: an `import java.util.Arrays` became conditional; needs a Java front end',
 }
+
+why_missed.update({
+ 'C02-Br7': 'emitted-Go control flow: Decode shares the encoder\'s "instantiate the match payload when it is nil" helper (same family as C05-Br3, C05-Ar4): a property of the emitted program',
+ 'C05-Ar7': 'emitted-Go control flow: the decoder wraps the match lookup in `if p.<Length> > 0`; the dispatch table and every dependence are intact',
+ 'C08-Ar7': 'an attribute cache whose key (char[n]) forgets an input of the cached object (the NUL padding of zchar[n]): needs a per-path comparison of what a memo\'s key and its value are built from - designed (DESIGN.md, round 7), not built',
+ 'C15-Br7': 'a helper selects the prefix type by IsRepeat for the element length of a repeated string; the helper\'s summary in the dependence analysis is flow-insensitive, so the cell still depends on both prefix options',
+ 'C15-Br8': 'emitted-Lua value flow: the key local is trimmed of its padding but compared with the literal as written; what the emitted comparison sees is a property of the emitted program',
+ 'C17-Ar8': 'emitted-Go naming: one test function per match alternative named after the alternative\'s packet - two keys for one packet declare the function twice; needs the Go front end (a per-packet name emitted per key without de-duplication is decided for the Rust emitters only)',
+ 'C17-Br8': 'the Rust sample for a repeated packet member now recurses (termination: subsumed by the known C11/R finding of the Rust sample emitters, keyed by receiver type) and names a type the module does not import (emitted-Rust scoping)',
+ 'C04-Br8': 'value-level: `lengthAt > 0` where the sentinel is -1 (a length field at index 0 is never linked); an off-by-one in an index comparison',
+})
 rows = []
 for name in sorted(res):
     d = f'/verif/seeded/{name}'
